@@ -302,6 +302,8 @@ type State struct {
 	symStrN int
 	fuel    int
 	mergeN  int
+	assumes int
+	hardOps int
 }
 
 func newState() *State {
@@ -359,6 +361,15 @@ func (s *State) alloc(v Value) ObjID {
 }
 
 func (s *State) assume(c *Term) {
+	if c.IsTrue() {
+		return
+	}
+	s.assumes++
+	s.pc = append(s.pc, c)
+}
+
+// assumeBranch records a branch condition (both sides are explored).
+func (s *State) assumeBranch(c *Term) {
 	if c.IsTrue() {
 		return
 	}
